@@ -1,4 +1,5 @@
 import FxVerif.Model.C18
+import FxVerif.Model.C18P
 import FxVerif.Model.Util
 /-! line-protocol driver for the C18 model: `lake env lean --run Driver/C18.lean < ops.txt`.
 Every boundary is run through the composition COMPILED FROM THE GENERATED call lists, on a state of marks. -/
@@ -68,6 +69,120 @@ def bci (same : Bool) (rfund : Nat) (amts : List Nat) (fail : String) : String :
   let toks := List.range amts.length
   s!"res={tag} recv={showNats (toks.map (s'.bal receiver))} refund={showNats (toks.map (s'.bal refund))} erc={showNats (toks.map (s'.erc receiver))} records={s'.records.length} pending={s'.pending.length}"
 
+/-! ## the regenerated structured programs, executed by `Model.C18P.exec` -/
+
+namespace P
+open FxVerif.Model.C18P
+
+def baseEnv (trueConds : List String) (iters : Nat) : Env :=
+  { ok := fun _ _ => true, panics := fun _ _ => false, evm := fun _ _ => .ok, iters := fun _ => iters,
+    cond := fun t _ => trueConds.contains t }
+
+def failAt (e : Env) (name : String) (i : Nat) : Env :=
+  { e with ok := fun n j => if n == name && j == i then false else e.ok n j }
+def panicAt (e : Env) (name : String) (i : Nat) : Env :=
+  { e with panics := fun n j => if n == name && j == i then true else e.panics n j }
+def vmErr (e : Env) (name : String) (k : EvmKind) : Env :=
+  { e with evm := fun n j => if n == name then k else e.evm n j }
+
+def has (ts : List Tok) (name : String) : Bool := ts.any (fun t => t.name == name)
+def count (ts : List Tok) (name : String) : Nat := (ts.filter (fun t => t.name == name)).length
+def b01 (b : Bool) : String := if b then "1" else "0"
+
+/-- how a call ends: `ok`, `err` (an error is returned), or a VM error kind in the response -/
+def applyCall (e : Env) (name : String) (how : String) : Option Env :=
+  match how with
+  | "ok" | "-" => some e
+  | "err" => some (failAt e name 0)
+  | "revert" => some (vmErr e name .revert)
+  | "oog" => some (vmErr e name .outOfGas)
+  | "invalid" => some (vmErr e name .invalidOpcode)
+  | "insufficient" => some (vmErr e name .insufficientBalance)
+  | _ => none
+
+def flowStr : Flow → String
+  | .norm => "norm" | .brk => "brk" | .cont => "cont" | .ret true => "nil" | .ret false => "err" | .panic => "panic"
+
+/-- `patt <handler category> <ok|fail>` -/
+def att (hcat : String) (ok : Bool) : String :=
+  let e := baseEnv [] 0
+  let e := if ok then e else failAt e "k.AttestationHandler" 0
+  let r := run e attestationProg
+  let m (t : Tok) : List String :=
+    match t.name with
+    | "k.SetLastObservedEventNonce" => ["lastObservedNonce"]
+    | "k.SetLastObservedBlockHeight" => ["lastObservedHeight"]
+    | "k.SetAttestation" => ["att"]
+    | "k.AttestationHandler" => if hcat == "-" then [] else hcat.splitOn "+"
+    | "k.cleanupTimedOutBatches" | "k.cleanupTimeOutBridgeCall" | "k.pruneAttestations" => []
+    | other => ["other:" ++ other]
+  let marks := (r.2.outer.flatMap m).foldl (fun acc x => if acc.contains x then acc else x :: acc) ["oracleHeight", "oracleNonce"]
+  s!"flow={flowStr r.1} cats={showMarks marks}"
+
+/-- `pgov <n> <failIdx|-> <err|panic>` -/
+def gov (n : Nat) (f : Option Nat) (kind : String) : String :=
+  let e := baseEnv [] n
+  let e := match f with
+    | none => e
+    | some i => if kind == "panic" then panicAt e "handler" i else failAt e "handler" i
+  let r := run e govProg
+  let status := if has r.2.outer "set proposal.Status = v1.StatusPassed" then "passed"
+    else if has r.2.outer "set proposal.Status = v1.StatusFailed" || has r.2.outer "set proposal.Status = v1.StatusFailed #2" then "failed" else "?"
+  s!"flow={flowStr r.1} status={status} stored={b01 (has r.2.outer "keeper.SetProposal")} paid={count r.2.outer "handler"}"
+
+/-- `pbci <ntok> <unknown token idx|-> <convFail idx|-> <isContract> <memoSendCallTo> <call> <refund==receiver> <zero coins> <refund calls ok>` -/
+def bci (ntok : Nat) (pre conv : Option Nat) (isContract memoCall : Bool) (call : String) (same zero refundOk : Bool) : String :=
+  let conds := ["ExecuteClaim: found", "ExecuteClaim: externalClaim.(type) is *types.MsgBridgeCallClaim"]
+    ++ (if isContract then ["Keeper.BridgeCallEvm: k.evmKeeper.IsContract(ctx, to)"] else [])
+    ++ (if memoCall then ["Keeper.BridgeCallEvm: isMemoSendCallTo", "Keeper.BridgeCallHandler: isMemoSendCallTo"] else [])
+    ++ (if same then ["Keeper.BridgeCallHandler: bytes.Equal(receiverAddr.Bytes(), refundAddr.Bytes())"] else [])
+    ++ (if zero then ["Keeper.BridgeCallHandler: baseCoins.IsZero()"] else [])
+  let e := baseEnv conds ntok
+  let e := match conv with
+    | none => e
+    | some i => failAt e "k.BaseCoinToEvm" i
+  let e := match pre with
+    | none => e
+    | some i => failAt e "k.BridgeTokenToBaseCoin" i
+  let e := if refundOk then e else failAt e "k.AddOutgoingBridgeCall" 0
+  match applyCall e "k.evmKeeper.CallEVM" call with
+  | none => "bad-op"
+  | some e =>
+    let r := run e executeClaimProg
+    match r.1 with
+    | .ret true =>
+      let o := r.2.outer
+      let slot := has o "k.evmKeeper.CallEVM" && call == "ok"
+      s!"res=ok pending={b01 (!has o "k.DeletePendingExecuteClaim")} refund={count o "k.AddOutgoingBridgeCall"} moved={count o "k.bankKeeper.SendCoins"} erc={count o "k.BaseCoinToEvm"} slot={b01 slot}"
+    | _ => "res=err pending=1 refund=0 moved=0 erc=0 slot=0"   -- the native action is reverted as a whole
+
+/-- `pibc <app ok|err> <fx 0|1> <evmaddr 0|1> <conv ok|err|-> <memo none|nojson|invalid|othertype|call> <call>` -/
+def ibc (app : String) (fx evmaddr : Bool) (conv memo call : String) : String :=
+  let conds := ["RecvPacket: ok", "RecvPacket: ack != nil", "Keeper.OnRecvPacket: ok"]
+    ++ (if fx then [] else ["Keeper.OnRecvPacket: receiveCoin.GetDenom() != fxtypes.DefaultDenom"])
+    ++ (if evmaddr then ["Keeper.OnRecvPacket: isEvmAddr"] else [])
+    ++ (if memo == "none" then [] else ["Keeper.OnRecvPacket: len(data.Memo) > 0"])
+    ++ (if memo == "call" then ["Keeper.HandlerIbcCall: mp.(type) is *types.IbcCallEvmPacket"] else [])
+  let e := baseEnv conds 0
+  let e := if app == "err" then failAt e "im.IBCModule.OnRecvPacket" 0 else e
+  let e := if conv == "err" then failAt e "k.crossChainKeeper.IBCCoinToEvm" 0 else e
+  let e := if memo == "nojson" then failAt e "k.cdc.UnmarshalInterfaceJSON" 0 else e
+  let e := if memo == "invalid" then failAt e "mp.ValidateBasic" 0 else e
+  match applyCall e "k.evmKeeper.CallEVM" call with
+  | none => "bad-op"
+  | some e =>
+    let r := run e recvPacketProg
+    let o := r.2.outer
+    let ack := match o.find? (fun t => t.name == "k.ChannelKeeper.WriteAcknowledgement") with
+      | some t => if t.args == [true] then "ok" else if t.args == [false] then "err" else "?"
+      | none => "none"
+    let slot := has o "k.evmKeeper.CallEVM" && call == "ok"
+    s!"flow={flowStr r.1} ack={ack} recv={b01 (has o "k.ChannelKeeper.RecvPacket")} app={b01 (has o "im.IBCModule.OnRecvPacket")} erc={b01 (has o "k.crossChainKeeper.IBCCoinToEvm")} slot={b01 slot}"
+
+def optNat (w : String) : Option (Option Nat) := if w == "-" then some none else (w.toNat?).map some
+
+end P
+
 def step (st : Unit) (line : String) : Unit × String :=
   match words line with
   | "reset" :: _ => ((), "ok")
@@ -88,6 +203,16 @@ def step (st : Unit) (line : String) : Unit × String :=
     match rfund.toNat?, parseNats amts with
     | some r, some a => ((), bci (same == "1") r a fail)
     | _, _ => ((), "bad-op")
+  | ["patt", hcat, ok] => ((), P.att hcat (ok == "ok"))
+  | ["pgov", n, f, kind] =>
+    match n.toNat?, P.optNat f with
+    | some n, some f => ((), P.gov n f kind)
+    | _, _ => ((), "bad-op")
+  | ["pbci", ntok, pre, conv, isc, memo, call, same, zero, rok] =>
+    match ntok.toNat?, P.optNat pre, P.optNat conv with
+    | some n, some p, some c => ((), P.bci n p c (isc == "1") (memo == "1") call (same == "1") (zero == "1") (rok == "1"))
+    | _, _, _ => ((), "bad-op")
+  | ["pibc", app, fx, evmaddr, conv, memo, call] => ((), P.ibc app (fx == "1") (evmaddr == "1") conv memo call)
   | _ => (st, "bad-op")
 
 def main : IO Unit := runDriver step ()
